@@ -183,6 +183,25 @@ for _p, _t in (('C07', 'every output format encodes the same derivation'), ('C08
         design_ref=f'DESIGN.md section 4, {_p}', note=BOUNDED_NOTE + '; lxml round trip assumed',
         technique='bounded run-time contract on the real encoders/readers against independent spec decoders (stand-in; not proved)',
     )
+CHECKS['C07'] = dict(
+    category='exploration',
+    text=('Deductive parts (PyVC on the real printers, tree view checked against the real properties of tree.py): the conll dependency column - _resolve_dependencies and its nested recursive rec are '
+          'proved, by structural induction with the recursive calls replaced by the contract, to yield exactly one root (the head word) and for every other word the head its head flags imply, inside the span; '
+          'the element structure of C&C xml - _process_tree and rec proved equal to the recursive spec encoding (one lf per word with start = offset from 0 per tree, span 1, category text, token attributes; '
+          'one rule per inner node with label and category text, children in order). All other formats and clauses (text layouts, numbering, category spellings, escapes) are decided BOUNDED: run-time contract '
+          'decode(encode(t)) = view(t) with independent spec decoders and the repository readers on files the real encoders wrote. Level exploration because most clauses are bounded.'),
+    design_ref='DESIGN.md section 4, C07', note=BOUNDED_NOTE + '; lxml contracts assumed; refuted or undecided obligations are replayed on the real code (bounded/view_replay.py)',
+    technique='contract-based deductive verification of the conll dependency resolver and the C&C xml builder (PyVC, structural induction via recursive-call contracts); bounded run-time contract for the other encoders',
+)
+CHECKS['C15'] = dict(
+    category='exploration',
+    text=('Deductive part (PyVC on the real jigg_xml.py): _ConvertToJiggXML.process and its nested recursive traverse are proved against the spec function span_rec (spans in pre-order, span j with id p + j, '
+          'child / terminal references, rule label, begin / end offsets; ids continue after those of the trees printed before on the same converter; first span is the root); lemmas over span_rec by structural '
+          'induction give the sentence-level clauses: ids unique (also across an n-best list), references resolve inside the tree, offsets tile, one root; to_jigg_xml creates one converter per sentence '
+          '(call-site obligation on the ast). Reading the XML back (read_xml, read_jigg_xml, ccg2lambda tree builder), C&C xml and the token elements are decided BOUNDED on the real code.'),
+    design_ref='DESIGN.md section 4, C15', note=BOUNDED_NOTE + '; lxml contracts assumed; refuted or undecided obligations are replayed on the real code (bounded/view_replay.py)',
+    technique='contract-based deductive verification of the Jigg span writer (PyVC, structural induction via recursive-call contracts, lemmas over the spec function); bounded run-time contract for readers and round trips',
+)
 
 NA_REASON = {}
 
@@ -214,7 +233,7 @@ def main():
                            'parsing.h with g++ themselves (vc/harness.py) and set DEPCCG_VERIF=1 for the bounded C01 run; the deductive obligations do not use it'),
                    baseline_off_cmd='cd /repo && env -u DEPCCG_VERIF /venv/bin/python -m pytest -ra -q -p no:cacheprovider --timeout=900 --continue-on-collection-errors',
                    source_commits=['0b0a8cf'], add_only=True),
-        engines=[dict(name='pyvc', path='/verif/vc/pyvc.py', serves_properties=['C03', 'C04', 'C05', 'C06', 'C11', 'C12', 'C13', 'C14', 'C17'],
+        engines=[dict(name='pyvc', path='/verif/vc/pyvc.py', serves_properties=['C03', 'C04', 'C05', 'C06', 'C07', 'C11', 'C12', 'C13', 'C14', 'C15', 'C17'],
                       kind_free_text='verification-condition generator (symbolic execution of the python ast of the real source, sidecar contracts in /verif/contracts) + z3/cvc5'),
                  dict(name='cxxvc', path='/verif/vc/cxxvc.py', serves_properties=['C01', 'C02', 'C09', 'C10', 'C11', 'C12', 'C16'],
                       kind_free_text='verification-condition generator over clang\'s JSON AST of depccg/parsing.h (invariant rule over the search loop) + z3/cvc5'),
